@@ -138,6 +138,15 @@ PROPS = {
         "level_text": "Machine-checked table facts and spelling rules (Lean 4) that the LIST fixed-point argument rests on: all 39 keyword/operator spellings read from tokenizer.rs re-tokenize to exactly their own token; DATA string quote rule; numeral-after-identifier rule. The fixed-point theorem for arbitrary stored lines is not yet proved; the check rests for it on the correspondence slice (store -> LIST -> reload into a fresh interpreter -> LIST, RUN of both with a READ/PRINT tail that dumps every DATA item; implementation vs model) and on the oracle (identical listing, identical stored tokens, identical transcripts). This slice found a genuine defect on the pinned tree (PRINT A .5 listed as PRINT A 0.5, which reloads as A0 0.5), repaired by fix commit 99b8efc.",
         "level_note": "PARTIAL proof. Trusted: Lean kernel, extractor, NumOps law parse(render x) = x for finite x (tested by the num slice).",
     },
+    "C15": {
+        "what": "a numbered non-empty tokenizable line is stored identically by the analyzer's line pass and by line entry; for a file of such lines the loaded program store = the fold of line entries; the loaded interpreter has all runtime state initial; in file mode and in interactive mode the running interpreter carries exactly the command-line flags, which line entry does not change",
+        "theorems": ["analyzeLine_store", "typed_store", "load_store", "loaded_is_fresh", "cli_flags_file", "cli_flags_interactive", "typing_keeps_flags"],
+        "open": ["equality of whole RUN transcripts in both modes (follows from equal stores + equal flags + fresh state by determinism; not yet stated as one theorem)", "skip_check_same_program is immediate: the check never touches the program"],
+        "slices": ["c15"],
+        "needs_bins": True,
+        "level_text": "Machine-checked theorems (Lean 4): loading = typing at the level of the program store for every file of numbered, non-empty, tokenizable lines (induction over the file), freshness of the loaded interpreter, and flags = command-line options in both modes. Correspondence: SourceFileAnalyzer::analyze(..).into_interpreter() vs line-by-line entry in-process (snapshot, LIST, RUN; implementation vs model), and the REAL abasic binary run in file mode vs the same lines + RUN piped into an interactive session for the --warnings/--tracing/--skip-check combinations (stdout/stderr canonicalised: banner, static-analysis messages and the trailing newline of a piped session removed).",
+        "level_note": "Process-level I/O (rustyline, buffering, exit codes) is exercised, not modelled; the time-based seed is a parameter of the model.",
+    },
     "C16": {
         "what": "each growth site of stack/arrays/variables respects its cap or typing rule: GOSUB and FN frames <= 32 with OUT OF MEMORY at the cap and the stack untouched, created arrays have prod(dims) cells <= 10000 and the kind of their suffix, scalars stored only with matching suffix",
         "theorems": ["caps", "gosub_cap", "call_cap", "dimSizes_spec", "create_spec", "setVar_typed"],
